@@ -146,7 +146,7 @@ func c20Main(c *lib.Ctx) {
 // c20Tables regenerates the string tables with the repository's own stringer.
 func c20Tables(c *lib.Ctx) {
 	repo := RepoDir()
-	wd := filepath.Join(lib.VerifDir(), "work", "C20")
+	wd := filepath.Join(lib.OutDir(), "work", "C20")
 	os.MkdirAll(wd, 0o755)
 	checked, err := os.ReadFile(filepath.Join(repo, "types_string.go"))
 	if err != nil {
